@@ -5,14 +5,53 @@ NOT_REFS = "!(lhs.data is Refs) && !(rhs.data is Refs)"
 UNITS = [
     Unit(name="Comparison::vals", file="src/parser/model.rs", impl="impl Comparison", fn="vals", order=40, serves=["C04"],
          ensures=[("def", "*r.0 == cmp_lhs(*self) && *r.1 == cmp_rhs(*self)")]),
-    Unit(name="eq", file=F, fn="eq", order=40, status="assumed", serves=["C04", "C15"],
-         why_assumed="f64 arithmetic, T: PartialEq and Vec<Pointer> equality: decided by the Kani harness (scalar kernel, full i64/f64 domain) and the bounded back end (structured values)",
+    Unit(name="eq_ref_to_array", file=F, fn="eq_ref_to_array", order=40, status="assumed", serves=["C04"], ret_name="res",
+         why_assumed="only reached from `eq` for a non-singular right operand, which no comparable produces (contract of eq: requires singular); iterator chain over Vec<Pointer>",
+         ensures=[]),
+    Unit(name="eq", file=F, fn="eq", order=40, serves=["C04", "C15"],
          requires=[("singular", "!(lhs_state.data is Refs) && !(rhs_state.data is Refs)")],
-         ensures=[("def", "r == val_eq(denote(lhs_state.data), denote(rhs_state.data))")]),
-    Unit(name="lt", file=F, fn="lt", order=40, status="assumed", serves=["C04", "C15"],
-         why_assumed="f64 arithmetic and str ordering: decided by the Kani harness (scalar kernel, full i64/f64 domain) and the bounded back end (strings)",
+         ensures=[("def", "r == val_eq(denote(lhs_state.data), denote(rhs_state.data))")],
+         # the (Ref, Value) arm calls eq_json with swapped operands: equality is symmetric
+         body_prefix="let ghost l0 = lhs_state; let ghost r0 = rhs_state; proof { match (l0.data, r0.data) { (Data::Ref(p), Data::Value(v)) => { axiom_json_eq_symmetric(v, *p.inner); } _ => {} } }",
+         text_rewrites=[("E10", "(Data::Refs(lhs), Data::Refs(rhs)) => lhs == rhs,", "(Data::Refs(lhs), Data::Refs(rhs)) => vf_ptr_vecs_eq(&lhs, &rhs),", 1)]),
+    Unit(name="cmp_numbers", file=F, fn="cmp_numbers", order=40, status="assumed", serves=["C04", "C15"],
+         why_assumed="f64 arithmetic and casts: Verus has no float reasoning; the numeric kernel is decided by the Kani harnesses "
+                     "(loop-free, all i64 x all finite f64) through eq / lt",
+         ensures=[("def", "r == num_cmp(*lhs, *rhs)")]),
+    Unit(name="lt", file=F, fn="lt", order=40, serves=["C04", "C15"],
          requires=[("singular", NOT_REFS)],
-         ensures=[("def", "r == val_lt(denote(lhs.data), denote(rhs.data))")]),
+         ensures=[("def", "r == val_lt(denote(lhs.data), denote(rhs.data))")],
+         text_rewrites=[("E10", "lhs < rhs", "vf_str_lt(lhs, rhs)", 1)],
+         closures={1: Cl(expect="cmp_numbers(lhs, rhs)", ret="(b: bool)",
+                         ensures=[("def", "b == json_lt(*lhs, *rhs)")])}),
+    Unit(name="eq_json", file=F, fn="eq_json", order=40, serves=["C04", "C15"], ret_name="res",
+         attrs=["#[verifier::exec_allows_no_decreases_clause]"],
+         ensures=[("def", "res == json_eq(*lhs, *rhs)")],
+         body_prefix="proof { axiom_json_eq_def(*lhs, *rhs); }",
+         # E10: `==` on references forwards to the referents (std's `impl PartialEq<&B> for &A`); the last-resort `lhs == rhs`
+         # is the data type's own PartialEq (abstract: scalar_eq)
+         text_rewrites=[("E10", "k == k2", "**k == **k2", 1),
+                        ("E10", "(None, None) => lhs == rhs,", "(None, None) => vf_scalar_eq(lhs, rhs),", 1)],
+         # rule E8: the helper results are bound so that "this is the quantified RFC statement" can be asserted
+         shapes=[("Rz", 1, "{ let __z = vf_zip_all($X, $Y, $P); proof { if $X@.len() == $Y@.len() { "
+                           "assert(__z == (forall|i: int| 0 <= i < $X@.len() ==> json_eq(#[trigger] $X@[i], $Y@[i]))); } } __z }"),
+                 ("R5all", 1, "{ let __a = vf_iter_all(&$X, $P); proof {\n"
+                              "if __a { assert forall|i: int| 0 <= i < $X@.len() implies #[trigger] member_match($X@, r@, i) by {\n let e = $X@[i];\n"
+                              "assert(exists|j: int| 0 <= j < r@.len() && e.0@ == (#[trigger] r@[j]).0@ && json_eq(*e.1, *r@[j].1));\n"
+                              "let j0 = choose|j: int| 0 <= j < r@.len() && e.0@ == (#[trigger] r@[j]).0@ && json_eq(*e.1, *r@[j].1);\n"
+                              "assert(0 <= j0 < r@.len() && $X@[i].0@ == r@[j0].0@ && json_eq(*$X@[i].1, *r@[j0].1)); } }\n"
+                              "if !__a { let i1 = choose|i: int| 0 <= i < $X@.len() && !(exists|j: int| 0 <= j < r@.len() && (#[trigger] $X@[i]).0@ == (#[trigger] r@[j]).0@ && json_eq(*$X@[i].1, *r@[j].1));\n"
+                              "assert(!member_match($X@, r@, i1)); }\n"
+                              "assert(__a == (forall|i: int| 0 <= i < $X@.len() ==> #[trigger] member_match($X@, r@, i))); } __a }"),
+                 ("R5any", 1, "vf_iter_any(&$X, $P)")],
+         closures={
+             1: Cl(expect="eq_json(a, b)", types=["(&T, &T)"], ret="(e: bool)",
+                   ensures=[("elem", "e == json_eq(*__c1_0.0, *__c1_0.1)")]),
+             2: Cl(expect="vf_iter_any", types=["&(&String, &T)"], ret="(e: bool)",
+                   ensures=[("member", "e == (exists|j: int| 0 <= j < r@.len() && __c2_0.0@ == (#[trigger] r@[j]).0@ && json_eq(*__c2_0.1, *r@[j].1))")]),
+             3: Cl(expect="eq_json(*a, *b)", types=["&(&String, &T)"], ret="(e: bool)",
+                   ensures=[("pair", "e == (k@ == __c3_0.0@ && json_eq(**a, *__c3_0.1))")]),
+         }),
     Unit(name="Comparison::process", calls=['Comparable::process'], file=F, impl="impl Query for Comparison", fn="process", order=41,
          trait_method=True, serves=["C04"],
          impl_extra="""
